@@ -4,7 +4,7 @@
    numeric carrier, its operations, the unit constants and ALL oracles. *)
 From Coq Require Import Reals String List Bool ZArith QArith.
 From SpdVerif Require Import Base.CfgNumOps Spec.ConfigSpec Gen.ConfigTables Gen.ConfigSites Model.ConfigTypes Model.Config Model.NumInst
-  Proofs.C17_rules Proofs.C17_finite Proofs.C17_entry Proofs.C17_current Gen.CfgSteps Proofs.CfgSteps_eq Model.Cfg_Composed Proofs.Cfg_composed Proofs.Cfg_composed_builtin.
+  Proofs.C17_rules Proofs.C17_finite Proofs.C17_entry Proofs.C17_current Proofs.Cfg_composed_examples Gen.CfgSteps Proofs.CfgSteps_eq Model.Cfg_Composed Proofs.Cfg_composed Proofs.Cfg_composed_builtin.
 Import ListNotations.
 
 (* The model IS the source: the statement-by-statement translation of SPDCConfig::try_as_spdc generated from the source
@@ -182,11 +182,13 @@ Theorem C17_no_panic : forall num (o : NumOps num) U K minpos (c : spdc_cfg num)
   scale_order o -> searches_defined_at o K c -> is_panic (try_as_spdc_now o U K minpos c) = false.
 Proof. exact now_no_panic_at. Qed.
 
-(* FULL STRENGTH on the repaired code: never panics provided the Snell inverse answers and the crystal-angle search answers for a
-   signal whose external angle exists -- nothing about total internal reflection or the period search is assumed any more: those
-   cases are ERRORS (rules 6, 7, 4' below) *)
+(* FULL STRENGTH on the repaired code: try_as_spdc NEVER panics -- for every configuration and EVERY oracle record (no hypothesis on
+   the numerical kernels).  Why: the wavelengths are validated first (rule 3), a search cannot fail (searches_cannot_fail: Cost1d::cost,
+   which every nelder_mead_1d call goes through, turns a NaN point / NaN cost into +infinity), a signal beyond total internal
+   reflection and a period search that finds nothing are errors (rules 7, 4').  The flags are pinned by C17_flags_now /
+   C17_repairs_now; [scale_order] is a law of the carrier (true over R and Q). *)
 Theorem C17_no_panic_full : forall num (o : NumOps num) U K minpos (c : spdc_cfg num),
-  scale_order o -> searches_defined_now num o K c -> is_panic (try_as_spdc_now o U K minpos c) = false.
+  scale_order o -> is_panic (try_as_spdc_now o U K minpos c) = false.
 Proof. exact now_no_panic_full. Qed.
 
 (* rule 6: an external signal angle of 90 degrees or more is an error *)
@@ -194,6 +196,14 @@ Theorem C17_rule_external_range : forall num (o : NumOps num) U K minpos (c : sp
   cfg_le o c = false -> bc_theta_deg (c_signal c) = None -> bc_theta_ext_deg (c_signal c) = Some e ->
   nltb o (nabs o e) (nQ o 90) = false -> try_as_spdc_now o U K minpos c = Err EExternalRange.
 Proof. exact now_rule_external_range. Qed.
+
+(* rule 6 for an explicit idler (the same test in IdlerConfig::try_as_beam), once the earlier steps have succeeded *)
+Theorem C17_rule_external_range_idler : forall num (o : NumOps num) U K minpos (c : spdc_cfg num) signal pp nfp cs ic e,
+  cfg_le o c = false -> signal_step o K c = Ok signal -> poling_step o K minpos cfg_rejects_bad_period c signal = Ok (pp, nfp) ->
+  theta_step o K c signal pp = Ok cs -> c_idler c = Param ic ->
+  bc_theta_deg ic = None -> bc_theta_ext_deg ic = Some e -> nltb o (nabs o e) (nQ o 90) = false ->
+  try_as_spdc_now o U K minpos c = Err EExternalRange.
+Proof. exact now_rule_external_range_idler. Qed.
 
 (* rule 7: an automatic crystal angle for a signal beyond total internal reflection is an error *)
 Theorem C17_rule_total_reflection : forall num (o : NumOps num) U K minpos (c : spdc_cfg num) signal,
@@ -213,10 +223,11 @@ Theorem C17_panics_only_search : forall num (o : NumOps num) U K minpos (c : spd
   scale_order o -> try_as_spdc_now o U K minpos c = Panic s -> s = SiteNelderMeadUnwrap.
 Proof. exact now_panics_only_search. Qed.
 
-(* the property's first sentence: either Ok with no non-finite field, or Err (under the oracle contracts: searches succeed,
-   idler angle / waist position defined, delta k of the unpoled crystal not exactly 0) *)
+(* the property's first sentence: either Ok with no non-finite field, or Err.  PARTIAL: the finiteness half needs the definedness of
+   what this configuration computes -- the results of its searches are finite numbers (search_results_defined_at), its idler angle
+   and the waist positions are defined (geometry_defined_at), delta k of the unpoled crystal is not exactly 0 *)
 Theorem C17_ok_finite_or_err_partial : forall num (o : NumOps num) U K minpos (c : spdc_cfg num),
-  scale_order o -> searches_defined_at o K c -> geometry_defined_at o K minpos cfg_rejects_bad_period c ->
+  scale_order o -> search_results_defined_at o K c -> geometry_defined_at o K minpos cfg_rejects_bad_period c ->
   (forall signal, signal_step o K c = Ok signal -> neqb o (o_dkz0 K signal (cfg_pump o c) (cfg_cs0 o c)) (n0 o) = false) ->
   (exists s, try_as_spdc_now o U K minpos c = Ok (s, [])) \/ (exists e, try_as_spdc_now o U K minpos c = Err e).
 Proof. exact now_ok_finite_or_err_at. Qed.
@@ -226,38 +237,20 @@ Proof. exact now_ok_finite_or_err_at. Qed.
    oracles_of_model index_of snell_inv sd_theta sd_period is an INSTANCE of the oracle record over the reals, for any index
    function (Proofs/Compose_index.crystal_index for built-in crystals: C17_no_panic_composed_builtin), any Snell inverse and any
    termination tests.  nm-unit scaling preserves order over the reals.  Every partial floating-point operation of the kernels
-   (asin beyond [-1, 1], sqrt of a negative number, division by 0) carries its definedness guard in the composed oracles, so the
-   never-panics theorem carries, PER CONFIGURATION, the three hypotheses that the known findings violate:
-     no_total_internal_reflection  |n sin(theta_s)| <= 1 at the placeholder crystal angle, when the crystal angle is automatic (F7b, F7f)
-     angle_search_defined          every candidate angle the search evaluates has a defined cost (Snell inverse + unpoled idler)
-     period_search_defined_at      every candidate period the search evaluates has a defined cost (F7h)
-   plus totality of the Snell inverse (property C13).  The first and the third are needed only while the code lacks the repairs of
-   F7b / F7h: they are guarded by the source-derived flags cfg_checks_total_reflection / searches_cannot_fail (Gen/ConfigSites.v).
-   The first cannot be dropped without the repair: C17_tir_outcome_composed. *)
-Theorem C17_no_panic_composed : forall index_of snell_inv sd_theta sd_period U minpos (c : spdc_cfg R),
-  (forall b e cs, snell_inv b e cs <> None) ->
-  (cfg_checks_total_reflection = false -> no_total_internal_reflection index_of snell_inv sd_theta sd_period c) ->
-  angle_search_defined index_of snell_inv sd_theta sd_period c ->
-  (searches_cannot_fail = false -> period_search_defined_at index_of snell_inv sd_theta sd_period c) ->
-  is_panic (try_as_spdc_now R_ops U (oracles_of_model index_of snell_inv sd_theta sd_period) minpos c) = false.
+   (asin beyond [-1, 1], sqrt of a negative number, division by 0) carries its definedness guard in the composed oracles; with the
+   NaN-safe solver (Gen/AutoCalc.v: nm_nan_cost_is_infinite) a candidate with an undefined cost costs +infinity and the search goes
+   on.  On the repaired code "never panics" needs NOTHING of the composed instance (C17_no_panic_full holds for every oracle record).
+   C17_no_panic_composed states what a code WITHOUT the repairs needs, each hypothesis guarded by the flag of the repair that makes
+   it void ([rj]: the zero-period flag, any value; the entry validates the wavelengths):
+     Snell inverse total; no_total_internal_reflection (F7b, F7f); angle_costs_defined; period_costs_defined (F7h).
+   C17_tir_is_error_composed / C17_tir_panics_composed: the F7b witness class is the error now, and was the panic. *)
+Theorem C17_no_panic_composed : forall index_of snell_inv sd_theta sd_period U minpos rj (c : spdc_cfg R),
+  (searches_cannot_fail = false -> forall b e cs, snell_inv b e cs <> None) ->
+  (cfg_checks_total_reflection = false -> searches_cannot_fail = false -> no_total_internal_reflection index_of snell_inv sd_theta sd_period c) ->
+  (searches_cannot_fail = false -> angle_costs_defined index_of snell_inv sd_theta sd_period c) ->
+  (searches_cannot_fail = false -> period_costs_defined index_of snell_inv sd_theta sd_period c) ->
+  is_panic (try_as_spdc R_ops U (oracles_of_model index_of snell_inv sd_theta sd_period) minpos rj true c) = false.
 Proof. exact no_panic_composed. Qed.
-
-(* what happens to a signal beyond total internal reflection with an automatic crystal angle: the panic of finding F7b while
-   the code does not check (cfg_checks_total_reflection = false), the error the property asks for once it does *)
-Theorem C17_tir_outcome_composed : forall index_of snell_inv sd_theta sd_period U minpos (c : spdc_cfg R) signal,
-  cfg_le R_ops c = false -> signal_step R_ops (oracles_of_model index_of snell_inv sd_theta sd_period) c = Ok signal ->
-  is_auto (cc_theta_deg (c_crystal c)) = true -> c_pp c = PCOff ->
-  snell_ext_defined index_of signal (cfg_cs0 R_ops c) = false ->
-  try_as_spdc_now R_ops U (oracles_of_model index_of snell_inv sd_theta sd_period) minpos c =
-    if cfg_checks_total_reflection then Err ETotalReflection else Panic SiteNelderMeadUnwrap.
-Proof. exact tir_outcome_composed. Qed.
-
-(* FULL STRENGTH on the repaired code *)
-Theorem C17_no_panic_composed_full : forall index_of snell_inv sd_theta sd_period U minpos (c : spdc_cfg R),
-  (forall b e cs, snell_inv b e cs <> None) ->
-  angle_search_defined index_of snell_inv sd_theta sd_period c ->
-  is_panic (try_as_spdc_now R_ops U (oracles_of_model index_of snell_inv sd_theta sd_period) minpos c) = false.
-Proof. exact no_panic_composed_now. Qed.
 
 Theorem C17_tir_is_error_composed : forall index_of snell_inv sd_theta sd_period U minpos (c : spdc_cfg R) signal,
   cfg_le R_ops c = false -> signal_step R_ops (oracles_of_model index_of snell_inv sd_theta sd_period) c = Ok signal ->
@@ -266,28 +259,35 @@ Theorem C17_tir_is_error_composed : forall index_of snell_inv sd_theta sd_period
   try_as_spdc_now R_ops U (oracles_of_model index_of snell_inv sd_theta sd_period) minpos c = Err ETotalReflection.
 Proof. exact tir_is_error_composed_now. Qed.
 
-Theorem C17_no_panic_composed_builtin : forall snell_inv sd_theta sd_period U minpos (c : spdc_cfg R),
-  (forall b e cs, snell_inv b e cs <> None) ->
-  (cfg_checks_total_reflection = false -> no_total_internal_reflection builtin_index_of snell_inv sd_theta sd_period c) ->
-  angle_search_defined builtin_index_of snell_inv sd_theta sd_period c ->
-  (searches_cannot_fail = false -> period_search_defined_at builtin_index_of snell_inv sd_theta sd_period c) ->
-  is_panic (try_as_spdc_now R_ops U (oracles_of_model builtin_index_of snell_inv sd_theta sd_period) minpos c) = false.
+Theorem C17_tir_panics_composed : forall index_of snell_inv sd_theta sd_period U minpos rj (c : spdc_cfg R) signal,
+  cfg_checks_total_reflection = false -> searches_cannot_fail = false ->
+  cfg_le R_ops c = false -> signal_step R_ops (oracles_of_model index_of snell_inv sd_theta sd_period) c = Ok signal ->
+  is_auto (cc_theta_deg (c_crystal c)) = true -> c_pp c = PCOff ->
+  snell_ext_defined index_of signal (cfg_cs0 R_ops c) = false ->
+  try_as_spdc R_ops U (oracles_of_model index_of snell_inv sd_theta sd_period) minpos rj true c = Panic SiteNelderMeadUnwrap.
+Proof. exact tir_panics_composed. Qed.
+
+Theorem C17_no_panic_composed_builtin : forall snell_inv sd_theta sd_period U minpos rj (c : spdc_cfg R),
+  (searches_cannot_fail = false -> forall b e cs, snell_inv b e cs <> None) ->
+  (cfg_checks_total_reflection = false -> searches_cannot_fail = false -> no_total_internal_reflection builtin_index_of snell_inv sd_theta sd_period c) ->
+  (searches_cannot_fail = false -> angle_costs_defined builtin_index_of snell_inv sd_theta sd_period c) ->
+  (searches_cannot_fail = false -> period_costs_defined builtin_index_of snell_inv sd_theta sd_period c) ->
+  is_panic (try_as_spdc R_ops U (oracles_of_model builtin_index_of snell_inv sd_theta sd_period) minpos rj true c) = false.
 Proof. exact no_panic_builtin. Qed.
 
-(* Ok with nothing non-finite, or Err: additionally the index along z is never 0 and the emission angle of this configuration's
-   optimum idler is defined (arg > 0, |val| <= 1) *)
+(* Ok with nothing non-finite, or Err, on the code as it is now.  PARTIAL: the Snell inverse answers (C13), every candidate of the
+   angle / period search has a defined cost, the index along z is never 0 and the emission angle of this configuration's optimum
+   idler is defined (arg > 0, |val| <= 1), delta k of the unpoled crystal is not exactly 0 *)
 Theorem C17_ok_finite_or_err_composed_partial : forall index_of snell_inv sd_theta sd_period U minpos (c : spdc_cfg R),
   (forall b e cs, snell_inv b e cs <> None) ->
-  (cfg_checks_total_reflection = false -> no_total_internal_reflection index_of snell_inv sd_theta sd_period c) ->
-  angle_search_defined index_of snell_inv sd_theta sd_period c ->
-  (searches_cannot_fail = false -> period_search_defined_at index_of snell_inv sd_theta sd_period c) ->
+  angle_costs_defined index_of snell_inv sd_theta sd_period c -> period_costs_defined index_of snell_inv sd_theta sd_period c ->
   (forall cs l pol, index_of cs l Vec3.ez pol <> 0%R) ->
-  idler_defined_at index_of snell_inv sd_theta sd_period minpos c ->
+  idler_defined_at index_of snell_inv sd_theta sd_period minpos cfg_rejects_bad_period c ->
   (forall signal, signal_step R_ops (oracles_of_model index_of snell_inv sd_theta sd_period) c = Ok signal ->
      dkz_c index_of signal (cfg_pump R_ops c) (cfg_cs0 R_ops c) MI.PPOff <> 0%R) ->
   (exists s, try_as_spdc_now R_ops U (oracles_of_model index_of snell_inv sd_theta sd_period) minpos c = Ok (s, [])) \/
   (exists e, try_as_spdc_now R_ops U (oracles_of_model index_of snell_inv sd_theta sd_period) minpos c = Err e).
-Proof. exact ok_finite_or_err_composed. Qed.
+Proof. exact ok_finite_or_err_composed_now. Qed.
 
 (* the model's IdlerBeam::try_new_optimum at the composed instance IS C03's generated optimum_idler: refused exactly when
    lambda_s <= lambda_p, otherwise the same beam *)
@@ -303,7 +303,8 @@ Proof. exact idler_composed. Qed.
 
 (* the model's optimum_poling_period at the composed instance IS C04's (early exit, seed, sign, bounds, final test) *)
 Theorem C17_period_is_C04 : forall index_of snell_inv sd_theta sd_period s p cs,
-  signal_le_pump R_ops s p = false -> period_search_defined index_of sd_period s p cs = true ->
+  signal_le_pump R_ops s p = false ->
+  idler_defined index_of s p cs MI.PPOff = true -> (forall x, period_cost_defined index_of s p cs x = true) ->
   match MA.optimum_poling_period (dkz_c index_of s p cs) MA.real_ops sd_period (cs_length cs) with
   | MA.AutoInfinite => optimum_poling_period R_ops (oracles_of_model index_of snell_inv sd_theta sd_period) GA.opp_min_period s p cs = Ok (inr tt)
   | MA.AutoErr => optimum_poling_period R_ops (oracles_of_model index_of snell_inv sd_theta sd_period) GA.opp_min_period s p cs = Err EImpossiblePeriod
@@ -357,12 +358,49 @@ Proof. vm_compute. reflexivity. Qed.
 Example C17_ex_bad_period : try_as_spdc_now Q_ops ex_units ex_oracles (1 # 1000000000000) (ex_cfg 1550 (Param 90) (PCConfig (Param 0) ACOff)) = Err EBadPeriod.
 Proof. vm_compute. reflexivity. Qed.
 
+(* rules 6, 7, 4' on concrete configurations; an automatic crystal angle that SUCCEEDS; the composed definedness hypotheses are
+   satisfiable with an automatic angle *)
+Definition ex_cfg_ext (e : Q) (theta : auto Q) : spdc_cfg Q :=
+  {| c_crystal := c_crystal (ex_cfg 1550 theta PCOff); c_pump := c_pump (ex_cfg 1550 theta PCOff);
+     c_signal := {| bc_wavelength_nm := 1550; bc_phi_deg := 0; bc_theta_deg := None; bc_theta_ext_deg := Some e;
+                    bc_waist_um := 100; bc_waist_pos_um := Auto |};
+     c_idler := Auto; c_pp := PCOff; c_deff := 76 # 10 |}.
+Example C17_ex_rule6 : try_as_spdc_now Q_ops ex_units ex_oracles (1 # 1000000000000) (ex_cfg_ext (3185 # 10) (Param 90)) = Err EExternalRange
+  /\ is_ok (try_as_spdc_now Q_ops ex_units ex_oracles (1 # 1000000000000) (ex_cfg_ext (-415 # 10) (Param 90))) = true.
+Proof. split; vm_compute; reflexivity. Qed.
+Example C17_ex_rule6_idler : try_as_spdc_now Q_ops ex_units ex_oracles (1 # 1000000000000)
+  {| c_crystal := c_crystal (ex_cfg 1550 (Param 90) PCOff); c_pump := c_pump (ex_cfg 1550 (Param 90) PCOff);
+     c_signal := c_signal (ex_cfg 1550 (Param 90) PCOff);
+     c_idler := Param {| bc_wavelength_nm := 1550; bc_phi_deg := 180; bc_theta_deg := None; bc_theta_ext_deg := Some 90;
+                         bc_waist_um := 100; bc_waist_pos_um := Auto |};
+     c_pp := PCOff; c_deff := 1 |} = Err EExternalRange.
+Proof. vm_compute. reflexivity. Qed.
+Definition ex_oracles_tir : oracles Q := {|
+  o_snell_inv := o_snell_inv ex_oracles; o_snell_ext := fun _ _ => None; o_nm_theta := o_nm_theta ex_oracles;
+  o_dkz0 := o_dkz0 ex_oracles; o_nm_period := fun _ _ _ => None; o_idler_theta := o_idler_theta ex_oracles;
+  o_waist_pos := o_waist_pos ex_oracles |}.
+Example C17_ex_rule7 : try_as_spdc_now Q_ops ex_units ex_oracles_tir (1 # 1000000000000) (ex_cfg 1550 Auto PCOff) = Err ETotalReflection.
+Proof. vm_compute. reflexivity. Qed.
+Example C17_ex_rule4' : try_as_spdc_now Q_ops ex_units ex_oracles_tir (1 # 1000000000000) (ex_cfg 1550 (Param 90) (PCConfig Auto ACOff))
+  = Err EImpossiblePeriod.
+Proof. vm_compute. reflexivity. Qed.
+Example C17_ex_auto_theta_ok : exists s, try_as_spdc_now Q_ops ex_units ex_oracles (1 # 1000000000000) (ex_cfg 1550 Auto PCOff) = Ok (s, [])
+  /\ cs_theta (s_crystal s) == 1 # 2.
+Proof. eexists. split; [vm_compute; reflexivity | vm_compute; reflexivity]. Qed.
+(* a configuration WITH an automatic crystal angle for which angle_costs_defined holds non-vacuously: collinear signal in a medium
+   of index 3/2, identity Snell inverse -- every candidate angle has a defined cost (arg = (ns - N)^2 + ... > 0 needs N <> ns:
+   here the pump index equals the signal's and ls/lp = 2) *)
+Example C17_ex_angle_costs_defined :
+  is_auto (cc_theta_deg (c_crystal Cfg_composed_examples.ex_cfg_R)) = true /\
+  angle_costs_defined (fun _ _ _ _ => (3 / 2)%R) (fun _ e _ => Some e) (fun _ _ => true) (fun _ _ => true) Cfg_composed_examples.ex_cfg_R.
+Proof. split; [reflexivity | exact Cfg_composed_examples.angle_costs_defined_example]. Qed.
+
 Print Assumptions C17_try_as_spdc_is_generated.
 Example C17_ex_snell_total : exists si : beam R -> R -> crystal_setup R -> option R, forall b e cs, si b e cs <> None.
 Proof. exact snell_total_example. Qed.
 
 Print Assumptions C17_no_panic_composed.
-Print Assumptions C17_tir_outcome_composed.
+Print Assumptions C17_tir_panics_composed.
 Print Assumptions C17_no_panic_composed_builtin.
 Print Assumptions C17_ok_finite_or_err_composed_partial.
 Print Assumptions C17_idler_is_C03.
@@ -373,7 +411,7 @@ Print Assumptions C17_no_panic_full.
 Print Assumptions C17_rule_external_range.
 Print Assumptions C17_rule_total_reflection.
 Print Assumptions C17_rule_search_finds_nothing.
-Print Assumptions C17_no_panic_composed_full.
+Print Assumptions C17_rule_external_range_idler.
 Print Assumptions C17_tir_is_error_composed.
 Print Assumptions C17_rule_signal_le_pump.
 Print Assumptions C17_rule_signal_angles_now.
